@@ -44,6 +44,12 @@ STRUCTS = {
     "P": [[("N", [("L", S1)])]],
     "Q": [[("N", [("L", S1)]), ("N", [("L", S1)])]],
     "T": [[("L", S1), ("N", [("L", S2)]), ("S", S1)]],
+    # a cudaEventRecord issued before anything was launched on its stream: the later wait has nothing to wait for
+    "U": [[("R", S1), ("L", S1), ("Q", 0)]],
+    "V": [[("R", S1), ("L", S1), ("W", S2, 0), ("L", S2)]],
+    # a user annotation (no graph nodes of its own) between an operator and its launch call / around two calls
+    "X": [[("A", [("L", S1)])]],
+    "Z": [[("A", [("L", S1)]), ("L", S1)]],
 }
 QUICK = ["A", "B", "C", "D", "E", "I"]
 
@@ -64,8 +70,8 @@ def build(struct, step=True):
 
     state = {"corr": 50, "first": True}
 
-    def add_op(name, tag, items):
-        O = host(name, tag)
+    def add_op(name, tag, items, cat="cpu_op"):
+        O = host(name, tag, cat=cat)
         allops.append(O)
         if state["first"]:
             state["first"] = False
@@ -76,6 +82,8 @@ def build(struct, step=True):
             if it[0] == "N":
                 # a nested operator with its own items
                 O["children"].append(add_op("aten::linear", f"{tag}n{j}", it[1]))
+            elif it[0] == "A":
+                O["children"].append(add_op("nccl:all_reduce", f"{tag}a{j}", it[1], cat="user_annotation"))
             elif it[0] == "R":
                 Rr = host("cudaEventRecord", f"{tag}r{j}", corr=corr)
                 Rr["record"] = {"corr": corr, "stream": it[1], "after": [k for k in K if k["stream"] == it[1]]}
